@@ -340,6 +340,71 @@ def judge_stack_forms(ctx, rng, j):
             ctx.mark_nontrivial(dg(('css', tag, s, m, k)))
 
 
+def judge_sequences(ctx, rng, j):
+    """several signature instructions in ONE run: every check is decided on
+    its own (key, signature, message) - nothing remembered from an earlier
+    check in the same script may leak into a later one."""
+    fields = mk_fields(rng, rng.getrandbits(8) | 1)
+    sa, sb = (bytes(rng.getrandbits(8) for _ in range(32)) for _ in range(2))
+    pa, pb = sigmsg.pubkey(sa), sigmsg.pubkey(sb)
+    f = rng.choice((0, 0, 1, 2, 0x80))
+    sig = sigmsg.sign(sa, sigmsg.message(fields, f)) + (bytes([f]) if f else b'')
+    variants = [sig]
+    if not f:
+        variants.append(sig + b'\x00')
+    g = f ^ rng.choice((1, 2, 4, 0x40))
+    if sigmsg.message(fields, g) == sigmsg.message(fields, f):
+        variants.append(sig[:64] + (bytes([g]) if g else b''))
+    steps = [(sig, pa)]
+    for _ in range(rng.randrange(1, 4)):
+        steps.append((rng.choice(variants), rng.choice((pa, pb, pb))))
+    prog = b''
+    want = []
+    for s_, k_ in steps:
+        prog += isa.push1(s_) + isa.push1(k_) + isa.op('CHECK_SIG') + b'\xff'
+        fb = s_[64] if len(s_) == 65 else 0
+        want.append(b'\xff' if sigmsg.valid_fast(
+            k_, sigmsg.message(fields, fb), s_[:64]) else b'\x00')
+    ctx.evaluated()
+    st, exc = run(prog, dict(fields))
+    case = {'kind': 'sequence', 'fields': fields, 'prog': prog}
+    if exc is not None or st != want:
+        ctx.violation('check-sig-sequence', 'a sequence of CHECK_SIGs in one '
+                      'script does not give each check its own verdict', case,
+                      [x.hex() for x in want],
+                      repr(exc)[:100] if exc else [x.hex() for x in st])
+    elif b'\x00' in want:
+        ctx.mark_nontrivial(dg(case))
+    # the same through CHECK_SIG_STACK and SIGN twice with different flags
+    m = bytes(rng.getrandbits(8) for _ in range(9))
+    s1 = sigmsg.sign(sa, m)
+    prog = isa.push1(s1) + isa.push1(m) + isa.push1(pa) \
+        + isa.op('CHECK_SIG_STACK') + isa.push1(s1) + isa.push1(m) \
+        + isa.push1(pb) + isa.op('CHECK_SIG_STACK')
+    ctx.evaluated()
+    st, exc = run(prog, {})
+    if exc is not None or st != [b'\xff', b'\x00']:
+        ctx.violation('check-sig-stack-sequence', 'CHECK_SIG_STACK twice in '
+                      'one script (same signature, other key)',
+                      {'kind': 'sequence', 'fields': {}, 'prog': prog},
+                      ['ff', '00'], repr(exc)[:100] if exc
+                      else [x.hex() for x in st])
+    f1, f2 = rng.getrandbits(8), rng.getrandbits(8)
+    prog = isa.push1(sa) + isa.op('SIGN') + bytes([f1]) + isa.push1(sa) \
+        + isa.op('SIGN') + bytes([f2])
+    ctx.evaluated()
+    st, exc = run(prog, dict(fields))
+    ok = exc is None and len(st) == 2 and all(
+        sigmsg.valid_fast(pa, sigmsg.message(fields, ff), x[:64])
+        and len(x) == (65 if ff else 64)
+        for x, ff in zip(st, (f1, f2)))
+    if not ok:
+        ctx.violation('sign-sequence', 'SIGN twice with different flags in '
+                      'one script', {'kind': 'sequence', 'fields': fields,
+                                     'prog': prog}, 'two valid signatures',
+                      repr(exc)[:100] if exc else [x.hex()[:20] for x in st])
+
+
 def masks_for(rng, f):
     ms = {0, 0xff, f}
     for b in range(8):
@@ -392,6 +457,9 @@ def run_shard(spec, ctx):
     # (5) stack forms
     for r in range(40 if ctx.tier == 'quick' else 600):
         judge_stack_forms(ctx, rng, i + r * of)
+    # (6) several signature instructions in one run
+    for r in range(150 if ctx.tier == 'quick' else 3000):
+        judge_sequences(ctx, rng, i + r * of)
 
 
 def finalize(agg, tier):
@@ -431,6 +499,10 @@ def replay(case, ctx):
             if exc is not None or st != [b'\xff']:
                 ctx.violation('sign-then-check-fails', 'sign-then-check',
                               case)
+    elif k == 'sequence':
+        ctx.evaluated()
+        st, exc = run(case['prog'], dict(case['fields']))
+        ctx.count('replayed_sequence')
     elif k == 'css':
         prog = isa.push1(case['sig']) + isa.push1(case['msg']) \
             + isa.push1(case['key']) + isa.op('CHECK_SIG_STACK')
